@@ -370,7 +370,7 @@ def judge(ctx, p, ref, runs, fixed_state):
             nontriv = True
         why = None
         if rec.crashed == "timeout":
-            why = "collector/program did not finish within %d ms" % CASE_TIMEOUT_MS
+            why = "collector/program did not finish (watchdog %d ms, re-run alone with %d ms)" % (CASE_TIMEOUT_MS, RETRY_TIMEOUT_MS)
         elif rec.crashed:
             why = "process crashed (%s)" % rec.crashed
         elif o["uaf"] > 0 or (o["res"] == "panic" and "VERIF-UAF" in o["detail"]):
@@ -393,15 +393,34 @@ def judge(ctx, p, ref, runs, fixed_state):
     return True, nontriv
 
 
+RETRY_TIMEOUT_MS = 30000
+
+
+def retry_timeouts(binary, lines, recs, budget=12):
+    """a case that hit the 5 s watchdog is re-run alone with a long limit before it is believed: on a shared,
+    oversubscribed machine a healthy debug-build case can exceed 5 s of wall time; a collector that really
+    loops still does not finish.  At most `budget` cases are re-run."""
+    idx = [i for i, r in enumerate(recs) if r.crashed == "timeout"][:budget]
+    for i in idx:
+        recs[i] = yvlib.run_harness(binary, [lines[i]], quarantine=True, case_timeout_ms=RETRY_TIMEOUT_MS, shards=1)[0]
+    return len(idx)
+
+
 def run_probes(ctx, plist, label):
     """every probe: release gc=never (reference), debug (collects at every allocation), release gc=always;
     all under the quarantine"""
     dbg = ctx.harness("debug")
     rel = ctx.harness("release")
     t0 = time.time()
-    refs = yvlib.run_harness(rel, [line_of(p, "gc=never,stats=1") for p in plist], quarantine=True, case_timeout_ms=CASE_TIMEOUT_MS)
-    r_dbg = yvlib.run_harness(dbg, [line_of(p, "stats=1") for p in plist], quarantine=True, case_timeout_ms=CASE_TIMEOUT_MS, recycle=40)
-    r_rel = yvlib.run_harness(rel, [line_of(p, "gc=always,stats=1") for p in plist], quarantine=True, case_timeout_ms=CASE_TIMEOUT_MS, recycle=40)
+    l_ref = [line_of(p, "gc=never,stats=1") for p in plist]
+    l_dbg = [line_of(p, "stats=1") for p in plist]
+    l_rel = [line_of(p, "gc=always,stats=1") for p in plist]
+    refs = yvlib.run_harness(rel, l_ref, quarantine=True, case_timeout_ms=CASE_TIMEOUT_MS)
+    r_dbg = yvlib.run_harness(dbg, l_dbg, quarantine=True, case_timeout_ms=CASE_TIMEOUT_MS, recycle=40)
+    r_rel = yvlib.run_harness(rel, l_rel, quarantine=True, case_timeout_ms=CASE_TIMEOUT_MS, recycle=40)
+    nretry = retry_timeouts(rel, l_ref, refs) + retry_timeouts(dbg, l_dbg, r_dbg) + retry_timeouts(rel, l_rel, r_rel)
+    if nretry:
+        ctx.notes.append("%s: %d cases hit the %d ms watchdog and were re-run alone with %d ms" % (label, nretry, CASE_TIMEOUT_MS, RETRY_TIMEOUT_MS))
     log("[C01] %s: %d programs x 3 configurations in %.1fs" % (label, len(plist), time.time() - t0))
     nontriv = set()
     failed = 0
@@ -509,7 +528,11 @@ def check_snapshots(ctx, programs, tag):
     dbg = ctx.harness("debug")
     lines = [("c01run gc=never,snap_end=1 %s %s=%s" % (hx(src), hx("m1"), hx(SNAP_MODS["m1"]))) for src in programs]
     recs = yvlib.run_harness(rel, lines, quarantine=True, case_timeout_ms=CASE_TIMEOUT_MS)
-    recs += yvlib.run_harness(dbg, [l.replace("gc=never,", "") for l in lines], quarantine=True, case_timeout_ms=CASE_TIMEOUT_MS)
+    retry_timeouts(rel, lines, recs, budget=6)
+    dlines = [l.replace("gc=never,", "") for l in lines]
+    drecs = yvlib.run_harness(dbg, dlines, quarantine=True, case_timeout_ms=CASE_TIMEOUT_MS)
+    retry_timeouts(dbg, dlines, drecs, budget=6)
+    recs += drecs
     allp = list(programs) + list(programs)
     snaps = []
     for src, rec in zip(allp, recs):
